@@ -256,9 +256,9 @@ def correspond(ctx, scale=1):
     # all three algorithms hold sieving primes (EratBig needs sqrt(stop) > 3 * sieve size)
     k3 = [(7, 3000, 16), (1000, 2 * 10 ** 6, 16), (10 ** 8, 10 ** 8 + 600000, 16), (10 ** 9 + rng.below(10 ** 6), 10 ** 9 + 10 ** 6 + 700000, 32)]
     for _ in range(8 * min(scale, 4)):
-        kb = rng.choice([16, 17, 23, 32, 64])
+        kb = rng.choice([16, 17, 23, 32, 64] if scale > 1 else [16, 17, 23, 32])
         a = rng.choice([25 * 10 ** 8, 10 ** 10, 4 * 10 ** 10, 10 ** 11]) + rng.below(10 ** 9)
-        k3.append((a, a + rng.between(1, 12) * kb * 1024 * 30 + rng.below(400000), kb))
+        k3.append((a, a + rng.between(1, 12 if scale > 1 else 5) * kb * 1024 * 30 + rng.below(400000), kb))
     a = 10 ** 10 + rng.below(10 ** 9); k3.append((a, a + 1200000, 32))
     rcm, om, em3 = ps.run([model], input="".join("LEAF kernel3 %s %d %d %d\n" % (l1s[0], c[2], c[0], c[1]) for c in k3), timeout=1800)
     rci, oi, ei = ps.run([ps.build_probe("api_probe")], input="".join("COUNT 1 %d %d 1 %d\n" % (c[0], c[1], c[2]) for c in k3), timeout=600)
